@@ -15,6 +15,13 @@ Theorem C17_total : forall clean_host to_lower s, well_typed s ->
 Proof. exact total. Qed.
 Print Assumptions C17_total.
 
+(* the same for the pipe AgentStarter.Start builds for every async agent of the configuration *)
+Theorem C17_total_agents : forall clean_host to_lower s, well_typed s ->
+  forall c, init clean_host to_lower s = Ok c ->
+    forall readable a, In a (s_agents c) -> forall site, agent_factory_new readable a <> FPanic site.
+Proof. exact total_agents. Qed.
+Print Assumptions C17_total_agents.
+
 Theorem C17_init_never_panics : forall clean_host to_lower s site,
   init clean_host to_lower s <> Panic site.
 Proof. exact init_no_panic. Qed.
@@ -35,6 +42,15 @@ Theorem C17_post : forall clean_host to_lower s c,
   Forall2 (post_endpoint clean_host s) (s_endpoints s) (s_endpoints c).
 Proof. exact post. Qed.
 Print Assumptions C17_post.
+
+(* async agents after a successful Init: positive consumer timeout, at least one worker, a
+   health interval of at least a second; every backend has a method, the consumer timeout, a
+   decoder, sanitised non-empty hosts *)
+Theorem C17_post_agents : forall clean_host to_lower s c,
+  well_typed s -> init clean_host to_lower s = Ok c ->
+  Forall2 (post_agent clean_host) (s_agents s) (s_agents c).
+Proof. exact post_agents. Qed.
+Print Assumptions C17_post_agents.
 
 (* header names: the result of canonicalisation is a fixed point of it *)
 Theorem C17_canonical_idempotent : forall h, canon_header (canon_header h) = canon_header h.
@@ -88,7 +104,11 @@ Definition ex_endpoint (path enc : string) (bs : list backend) : endpoint :=
      e_enc := enc; e_hdrs := ["content-type"]; e_extra := [] |}.
 Definition ex_svc (v : Z) (es : list endpoint) : svc :=
   {| s_version := v; s_bad_addr := false; s_host := []; s_timeout := 0; s_cache := 0; s_enc := "";
-     s_norest := false; s_endpoints := es |}.
+     s_norest := false; s_endpoints := es; s_agents := [] |}.
+Definition ex_agent_svc (hosts : list string) (bs : list backend) : svc :=
+  {| s_version := 3; s_bad_addr := false; s_host := hosts; s_timeout := 0; s_cache := 0; s_enc := "";
+     s_norest := false; s_endpoints := [];
+     s_agents := [ {| a_name := ""; a_timeout := 0; a_workers := 0; a_health := 5; a_backends := bs; a_extra := [] |} ] |}.
 Definition ex_clean (h : string) : option string := if str_eqb h "h h" then None else Some ("http://" ++ h)%string.
 Definition ex_gql (v : string) : obj := [(ns_graphql, JObj [("type", JStr "query"); ("variables", JObj [("a", JStr v)])])].
 
@@ -102,7 +122,23 @@ Example C17_ex_accepted :
              oe_backends := [ {| ob_host := ["http://h"]; ob_method := "GET"; ob_url := "/b/{{.Id}}/{{.Resp0_x}}";
                                  ob_keys := ["Id"; "Resp0_x"]; ob_dec := DJson; ob_timeout := 2000000000;
                                  ob_cc := 1; ob_hdrs := ["X-A"] |} ];
-             oe_factory := KOk |} ].
+             oe_factory := KOk |} ] [].
+Proof. vm_compute. reflexivity. Qed.
+(* an async agent: defaults applied, pipe built; and rejected for an invalid host *)
+Example C17_ex_agent_accepted :
+  obs_of (fun _ => false) (init ex_clean (fun x => x) (ex_agent_svc ["s"] [ex_backend "/q" [] []; ex_backend "x" ["h"] []]))
+  = OOk [] [ {| oa_timeout := 2000000000; oa_workers := 1; oa_health := 1000000000;
+                oa_backends := [ {| ob_host := ["http://s"]; ob_method := "GET"; ob_url := "/q"; ob_keys := [];
+                                    ob_dec := DJson; ob_timeout := 2000000000; ob_cc := 0; ob_hdrs := ["x-a"] |};
+                                 {| ob_host := ["http://h"]; ob_method := "GET"; ob_url := "x"; ob_keys := [];
+                                    ob_dec := DJson; ob_timeout := 2000000000; ob_cc := 0; ob_hdrs := ["x-a"] |} ];
+                oa_factory := KOk |} ].
+Proof. vm_compute. reflexivity. Qed.
+Example C17_ex_agent_well_typed : well_typed_b (ex_agent_svc ["s"] [ex_backend "/q" [] []]) = true.
+Proof. vm_compute. reflexivity. Qed.
+Example C17_ex_agent_host : init ex_clean (fun x => x) (ex_agent_svc [] [ex_backend "/q" ["h h"] []]) = Err EHost.
+Proof. vm_compute. reflexivity. Qed.
+Example C17_ex_agent_must_reject : must_reject_b ex_clean (ex_agent_svc [] [ex_backend "/q" ["h h"] []]) = true.
 Proof. vm_compute. reflexivity. Qed.
 (* each rejected class is inhabited and rejected *)
 Example C17_ex_version : init ex_clean (fun x => x) (ex_svc 2 []) = Err EVersion.
